@@ -1732,9 +1732,14 @@ func (h *fsHandler) compressFileNolock(
 	// goroutine.
 	// It is safe opening such a file, since the file creation
 	// is guarded by file mutex - see getFileLock call.
-	if _, err := os.Stat(compressedFilePath); err == nil {
-		_ = f.Close()
-		return h.newCompressedFSFile(compressedFilePath, fileEncoding)
+	if fi, err := os.Stat(compressedFilePath); err == nil {
+		// The copy may also be a leftover made for an older version of the
+		// file (openFSFile doesn't see it when CompressRoot differs from Root).
+		if fileInfo.ModTime().Sub(fi.ModTime()) < time.Second {
+			_ = f.Close()
+			return h.newCompressedFSFile(compressedFilePath, fileEncoding)
+		}
+		_ = os.Remove(compressedFilePath)
 	}
 
 	// Create temporary file, so concurrent goroutines don't use
